@@ -308,7 +308,13 @@ class Kernel:
                 self.jumps += 1
                 self.decisions.append([self.steps, "@timer"])
         while self.timers and self.timers[0][0] <= self.now:
-            # timers already due (timeout 0, or several deadlines at one instant)
+            # timers already due (timeout 0, or several deadlines at one instant).  Stale heads
+            # (the waiter was woken otherwise) are just dropped: they must not make _fire_timer
+            # skip ahead to a LATER live timer and advance the clock while tasks are runnable.
+            at, _, t, bseq = self.timers[0]
+            if t.state != "blocked" or t.block_seq != bseq:
+                heapq.heappop(self.timers)
+                continue
             if not self._fire_timer():
                 break
         while True:
